@@ -267,7 +267,9 @@ pub(super) fn execute_set_labels<S: GraphSnapshot>(
                 for label in labels {
                     let label_id = txn.get_or_create_label_id(label)?;
                     txn.add_node_label(node_id, label_id)?;
-                    count += 1;
+                    if !node_has_label(snapshot, &row, var, node_id, label, label_id) {
+                        count += 1;
+                    }
                 }
                 continue;
             }
@@ -280,6 +282,24 @@ pub(super) fn execute_set_labels<S: GraphSnapshot>(
         }
     }
     Ok(count)
+}
+
+/// Label membership as the row sees it: a materialized node value wins over the snapshot.
+/// Label additions / removals are only counted when they change the node.
+fn node_has_label<S: GraphSnapshot>(
+    snapshot: &S,
+    row: &super::Row,
+    var: &str,
+    node_id: nervusdb_api::InternalNodeId,
+    label: &str,
+    label_id: super::LabelId,
+) -> bool {
+    match row.get(var) {
+        Some(Value::Node(node)) => node.labels.iter().any(|l| l == label),
+        _ => snapshot
+            .resolve_node_labels(node_id)
+            .is_some_and(|ids| ids.contains(&label_id)),
+    }
 }
 
 pub(super) fn execute_remove_labels<S: GraphSnapshot>(
@@ -297,7 +317,9 @@ pub(super) fn execute_remove_labels<S: GraphSnapshot>(
                 for label in labels {
                     if let Some(label_id) = snapshot.resolve_label_id(label) {
                         txn.remove_node_label(node_id, label_id)?;
-                        count += 1;
+                        if node_has_label(snapshot, &row, var, node_id, label, label_id) {
+                            count += 1;
+                        }
                     }
                 }
                 continue;
